@@ -5,7 +5,7 @@ for d in seeded/*/; do
   n=$(basename $d)
   extra=""
   [ -f $d/extra_checks ] && extra=$(cat $d/extra_checks)
-  tools/seedeval.py $d $n $(python3 -c "import json;print(json.load(open('$d/meta.json'))['property'])") $extra > $d/result.json 2>&1
+  tools/seedeval.py /verif/$d $n $(python3 -c "import json;print(json.load(open('$d/meta.json'))['property'])") $extra > $d/result.json 2>&1
   echo "$n $(python3 -c "
 import json
 try:
